@@ -76,12 +76,21 @@ EvSplit ==
                       THEN {} ELSE {"SplitNotAPartition"})
   /\ UNCHANGED <<tvars, run, results>>
 
+(* parse_repetitive_sequence: the occurrences from the first marker on are dealt out to the items -- each to exactly
+   one item, none invented, one item per marker, every item opening with its marker, items in input order *)
+EvRSplit ==
+  /\ IsEvent("rsplit")
+  /\ dev' = dev \cup (IF E.total = E.expected /\ E.items = E.markers /\ E.dup = 0 /\ E.invented = 0
+                            /\ E.disorder = 0 /\ E.headless = 0
+                      THEN {} ELSE {"ItemsNotAPartition"})
+  /\ UNCHANGED <<tvars, run, results>>
+
 EvEnd ==
   /\ IsEvent("end")
   /\ results' = Flush /\ run' = -1 /\ dev' = {}
   /\ UNCHANGED tvars
 
-TraceNext == Begin \/ EvGet \/ EvMark \/ EvConsume \/ EvFind \/ EvSplit \/ EvEnd
+TraceNext == Begin \/ EvGet \/ EvMark \/ EvConsume \/ EvFind \/ EvSplit \/ EvRSplit \/ EvEnd
 TraceSpec == TraceInit /\ [][TraceNext]_allvars
 
 Report == (l = Len(Rec) + 1) => PrintT(ToJson([results |-> results, lines |-> Len(Rec)]))
